@@ -1,4 +1,4 @@
-CONSTANTS Family = "seq"  MaxOps = 2  Bug = "GpfReturns"  Emit = FALSE
+CONSTANTS Family = "seq"  MaxOps = 2  Bug = "GpfReturns"  Emit = FALSE  Wide = FALSE
 CONSTANT Codes <- MCCodesQuick
 INIT Init
 NEXT Next
